@@ -8,6 +8,7 @@ CONSTANTS
   Routes = {"kwargs"}
   Layouts = {"flat", "nested"}
   Slim = TRUE
+  Spells = {"same"}
   HistKinds = {}
   MaxLookups = 0
 INVARIANT MainDirFollowsDocs
